@@ -40,6 +40,7 @@ func runC01(r *an.Run) {
 	c01Schema(r)
 	c01Containers(r)
 	c01SplitPatch(r)
+	memoDependencies(r, "R10-failure-memo-sees-every-binding")
 }
 
 const (
@@ -870,6 +871,39 @@ func c01IgnoreSet(r *an.Run) {
 		}
 		r.Check(!allTrue, short(m)+"|not-constant-true", m.Pos(), "%s does not accept every candidate unconditionally", short(m))
 	}
+	// who may use the always-true matcher: only the dispatch of compile (whose
+	// arms were just checked). A second compile function that hands it out
+	// under some condition ("no Meta: positions are not needed") ignores a part
+	// of the candidate the pattern does not ignore.
+	if g := r.P.Global(engine, "successMatcher"); g != nil {
+		uses := 0
+		for _, h := range r.P.ModuleFuncs() {
+			if h.Synthetic != "" && h.Name() == "init" {
+				continue
+			}
+			for _, b := range h.Blocks {
+				for _, in := range b.Instrs {
+					for _, op := range in.Operands(nil) {
+						if *op != ssa.Value(g) {
+							continue
+						}
+						if _, isStore := in.(*ssa.Store); isStore && h.Name() == "init" {
+							continue
+						}
+						uses++
+						root := h
+						for root.Parent() != nil {
+							root = root.Parent()
+						}
+						r.Check(root == f, "successMatcher-use|"+short(h), in.Pos(), "the always-true matcher is handed out only by the dispatch of matcherCompiler.compile (used in %s)", short(h))
+					}
+				}
+			}
+		}
+		r.Count("uses of successMatcher", uses)
+		r.Min("uses of successMatcher", 1)
+	}
+
 	// closures converted to matcherFunc: only successMatcher's may be constant true
 	mfT := r.P.NamedType(engine, "matcherFunc")
 	sm := initClosureOf(r, "successMatcher")
